@@ -9,6 +9,7 @@ import (
 	"fmt"
 	"io"
 	"math/big"
+	"os"
 	"testing"
 	"time"
 
@@ -25,6 +26,10 @@ import (
 var quietLog = func() *logrus.Entry {
 	l := logrus.New()
 	l.SetOutput(io.Discard)
+	if os.Getenv("VERIF_DEBUG_LOG") != "" {
+		l.SetOutput(os.Stderr)
+		l.SetLevel(logrus.DebugLevel)
+	}
 	return logrus.NewEntry(l)
 }()
 
